@@ -46,6 +46,14 @@ NOTES = {
  'S6-C04': "third change for C04 (Delete removes the backup copies before it takes the primary fragment's lock). Caught at once by the burst phases (6/151 backup-presence-differs/burst).",
  'S6-C05': "third change for C05 (fail-fast bound in the replication loop off by one: a Put is rejected when exactly WriteQuorum copies are reachable). Caught at once by the enumerated space (46/201 put-failed-although-quorum-met).",
  'S6-C13': "third change for C13 (left-over data report appends the member at the owner position on the coordinator). Missed at first (0/137): the divergence heals at the next routing push, before stabilisation is observed, and C13 had no writes during membership changes. Added a writer of fresh keys during the events and an invariant sampled whenever stabilisation is polled: members that applied the same pushed table (equal routing signature, new accessor) name the same owner for every partition. Caught since (2/120 owner-differs-under-equal-signature).",
+ 'S7-C06': "third change for C06 (merge into a member that had no fragment at check time skips the newest-timestamp comparison; the check runs before the locks). Missed at first (0/191): all conflicts of the check were built sequentially. Added concurrent deliveries of 2-3 fragment packs with different timestamps into an untouched DMap (pause-heavy). Caught since (34/382 merge-not-newest).",
+ 'S7-C07': "third change for C07 (backups ignore replicated entries with an older timestamp; atomic ops take their timestamp before the key lock). Caught at once (195/660).",
+ 'S7-C09': "third change for C09 (the owner's expired newest version is dropped from the version list, an older copy without ttl on a backup wins). Missed at first (0/619): backups never missed a ttl update. Added the missed-backup phase (R=2, the owner cannot reach the backup while Expire / Put PX is applied, heal, probe after the deadline). While doing so a generator bug was found: half of the C09 plans had no phases at all since the rewrite-after-expiry block was added (Phases was assigned inside it); fixed. Caught since.",
+ 'S7-C12': "third change for C12 (client iterators drop an owner when a page comes back empty with a non-zero cursor). Caught at once (39/224).",
+ 'S7-C14': "third change for C14 (PUBLISH swallows the error of forwarding to another member). Missed at first (0/257): no fault between members during a PUBLISH. Added a variant in which one member cannot reach another for a while; a PUBLISH that fails in that window is legal, one that is acknowledged must have been delivered (at least once: the client library re-sends after a time-out). Caught since (message-not-delivered, publish-count).",
+ 'S7-C15': "third change for C15 (pipelined GetPut keeps a slice into a pooled buffer that is recycled before Exec). Missed at first (0/288): the check had no pipeline path although the property names it. Added a sixth path: the same abstract sequence inside pipelines of the cluster client (batches of 2-5 commands), expanded for the sequential model. Caught since.",
+ 'S7-C16': "third change for C16 (partition id equal to the partition count passes the range check of INTERNAL.NODE.LENGTHOFPART). Caught at once by the enumerated vectors (93/117 member-crash).",
+ 'S7-C20': "third change for C20 (in-place overwrite with a shorter value leaves slack bytes counted as in use; compaction of such a table never finishes). Caught at once (allocation-unbounded, garbage-above-threshold).",
  'S3-C02': "second, independent change for C02 (fragment.Move releases the fragment lock while the table travels). Missed by C02 at first (caught by C03): deletes rarely coincided with the re-replication moves after a stop. Added the sweeper variant (slow network, 4 clients deleting their own keys one by one through the failure, 7 partitions). Caught by C02 since, rarely (3 of 192 runs); C03 catches it more often (6 of 246).",
  'S3-C03': "second, independent change for C03 (fragment.Move drops the table although the target refused it). Caught at once (key-lost).",
  'S3-C13': "second, independent change for C13 (stale backup owners when the cluster shrinks to one member). Caught at once (not-stabilised).",
